@@ -7,7 +7,7 @@ squared distances are perfect squares, so that every double the real code comput
 
 
 # ----------------------------------------------------------------------------- case <-> line
-ORDER = ["method", "k", "check", "cb", "metric", "kern", "sh", "pts", "m", "km", "vs", "dump"]
+ORDER = ["method", "k", "check", "cb", "metric", "kern", "sh", "pts", "m", "km", "vs", "dump", "dv"]
 
 
 def case_line(topic, c):
